@@ -170,7 +170,21 @@ class Gen:
                 u["v"] = self.clone(views["v"])
                 u["n"] = self.clone(views["n"])
                 self.note("op:nil-voted-round")
+                if views["c"] is not None and rng.chance(1, 3):
+                    # a slow reader: the committing view changed as well before this update was taken
+                    for _try in range(6):
+                        if self.mutate_view(views["c"], st) != "none":
+                            break
+                    u["c"] = self.clone(views["c"])
+                    self.note("op:nil-voted-round+committing")
             elif k < 20:      # height advances: voting becomes committing
+                if views["v"]["r"] > 0 and rng.chance(1, 3):
+                    # a slow reader: the previous round was nil-committed and the height decided before it read again
+                    nilv = self.fresh_view(views["v"]["h"], views["v"]["r"] - 1)
+                    for s in range(NVALS - rng.below(3)):
+                        nilv["pc"].setdefault(0, set()).add(s)
+                    u["nil"] = nilv
+                    self.note("op:height-switch+nil-voted-round")
                 views["c"] = views["v"]
                 hh = views["v"]["h"] + 1
                 views["v"] = self.fresh_view(hh, 0)
